@@ -208,8 +208,8 @@ def build(ctx, g, cls, n, free_at=None):
                 if not free(i):
                     recs.append(ab.AcAbility(i % 4, "FIXED", {m: True for m in ab.AcModeControl}, {m: True for m in ab.AcFanSpeedControl}, 17, 30, {2, 3}, 0, 2))
                     continue
-                newfmt = b.pick(2)
-                groups = None if newfmt == 0 else ({1, 9} | {x for x in (0, 15) if b.flag()})
+                newfmt = b.pick(3)
+                groups = None if newfmt == 0 else (set() if newfmt == 2 else ({1, 9} | {x for x in (0, 15) if b.flag()}))
                 recs.append(ab.AcAbility(b.int(0, 3), b.text(2, concrete_tail="U"), modes, fans, b.int(0, 63), b.int(0, 63), groups, b.int(0, 15), b.int(0, 16)))
             return E(ab.AcAbilityMessage(recs)), ("AbilityRequestALL" if n == 0 else None)
         if cls == "AbilityRequest":
